@@ -151,17 +151,17 @@ SPECS: List[Spec] = [
          [{'n': 2, 'x': 0, 'u': 1, 'once': 1}, {'n': 1, 'x': 1, 'u': 0}], [{'n': 3, 'x': 1, 'u': 0, 'once': 1}],
          out=lambda V, P: signed_alts(V['a'], 16, '0x' if P['x'] else '', bool(P['u']))),
     Spec('hex.print_dec_uint', 'hex.print_dec_uint {n}, a', {'a': 'n'}, H, lambda V, P: {}, 'prints x[:n] as an unsigned DECIMAL number (without leading zeros)',
-         'hex/output.fj', [{'n': 1}, {'n': 2, 'once': 1}], [{'n': 3, 'once': 1}], out=lambda V, P: numeral_alts(V['a'], 10)),
+         'hex/output.fj', [{'n': 1}, {'n': 2, 'once': 1}], [], out=lambda V, P: numeral_alts(V['a'], 10)),
     Spec('hex.print_dec_int', 'hex.print_dec_int {n}, a', {'a': 'n'}, H, lambda V, P: {}, 'prints x[:n] as a signed DECIMAL number (without leading zeros)',
-         'hex/output.fj', [{'n': 1}, {'n': 2, 'once': 1}], [{'n': 3, 'once': 1}], out=lambda V, P: signed_alts(V['a'], 10)),
+         'hex/output.fj', [{'n': 1}, {'n': 2, 'once': 1}], [], out=lambda V, P: signed_alts(V['a'], 10)),
     Spec('bit.print_hex_uint', 'bit.print_hex_uint {n}, a, {x}', {'a': 'n'}, Bf, lambda V, P: {}, 'print x[:n] as an unsigned hexadecimal number, without leading zeros',
-         'bit/output.fj', [{'n': 4, 'x': 1}, {'n': 8, 'x': 0, 'once': 1}], [{'n': 12, 'x': 1, 'once': 1}], out=lambda V, P: numeral_alts(V['a'], 16, '0x' if P['x'] else ''),
+         'bit/output.fj', [{'n': 4, 'x': 1}, {'n': 8, 'x': 0, 'once': 1}], [{'n': 12, 'x': 1, 'once': 1, 'minw': 32}], out=lambda V, P: numeral_alts(V['a'], 16, '0x' if P['x'] else ''),
          init='stl.startup', widths=(16, 64)),
     Spec('bit.print_hex_int', 'bit.print_hex_int {n}, a, {x}', {'a': 'n'}, Bf, lambda V, P: {}, 'print x[:n] as a signed hexadecimal number, without leading zeros',
-         'bit/output.fj', [{'n': 4, 'x': 0}, {'n': 8, 'x': 1, 'once': 1}], [{'n': 12, 'x': 1, 'once': 1}], out=lambda V, P: signed_alts(V['a'], 16, '0x' if P['x'] else ''),
+         'bit/output.fj', [{'n': 4, 'x': 0}, {'n': 8, 'x': 1, 'once': 1}], [{'n': 12, 'x': 1, 'once': 1, 'minw': 32}], out=lambda V, P: signed_alts(V['a'], 16, '0x' if P['x'] else ''),
          init='stl.startup', widths=(16, 64)),
     Spec('bit.print_dec_uint', 'bit.print_dec_uint {n}, a', {'a': 'n'}, Bf, lambda V, P: {}, 'prints x[:n] as an unsigned decimal number (without leading zeros)',
-         'bit/output.fj', [{'n': 3}, {'n': 5}, {'n': 8, 'once': 1}], [{'n': 11, 'once': 1}], out=lambda V, P: numeral_alts(V['a'], 10), init='stl.startup', widths=(16, 64)),
+         'bit/output.fj', [{'n': 3}, {'n': 5}, {'n': 8, 'once': 1}], [{'n': 9, 'once': 1}], out=lambda V, P: numeral_alts(V['a'], 10), init='stl.startup', widths=(16, 64)),
     Spec('bit.print_dec_int', 'bit.print_dec_int {n}, a', {'a': 'n'}, Bf, lambda V, P: {}, 'prints x[:n] as a signed decimal number (without leading zeros)',
          'bit/output.fj', [{'n': 4}, {'n': 7, 'once': 1}], [{'n': 9, 'once': 1}], out=lambda V, P: signed_alts(V['a'], 10), init='stl.startup', widths=(16, 64)),
     Spec('hex.input_dec_uint_until', 'hex.input_dec_uint_until {n}, a, s', {'a': 'n', 's': '2'}, H,
@@ -207,7 +207,7 @@ def run(report: Report, tier: str, only: Optional[str] = None) -> None:
     from fjv.checks.c04 import jobs
     report.functions += [{'name': f'{sp.name} ({sp.call})', 'file': 'flipjump/stl/' + sp.file, 'doc': sp.doc} for sp in SPECS]
     report.stub('none: real assembler + symbolic FlipJump machine fjsx (the IO op is part of the machine: symbolic input bits, recorded output bits)')
-    report.bounds.update({'macros': [sp.name for sp in SPECS], 'sizes': 'values of 1-3 bytes / hex digits, decimal numerals of 3-12 bits; every value and every input bit symbolic',
+    report.bounds.update({'macros': [sp.name for sp in SPECS], 'sizes': 'values of 1-3 bytes / hex digits, decimal numerals of 3-9 bits / 1-2 hex digits; every value and every input bit symbolic',
                           'widths': 'hex: w=64 (+32 in thorough); bit: w in {16, 64}'})
     report.outside += ['values wider than the sizes listed (decimal: 8-12 bits / 2-3 hex digits; hex numerals: 3 digits; raw bytes: 3 bytes)',
                        'decimal input longer than k bytes (k = 3 in quick, 4 in thorough: digits, an optional sign, and the stop byte)',
